@@ -1,4 +1,132 @@
-import Pun.Model.PBox
+import Pun.Lemmas.PBoxFrechet
+/-!
+# C02 — default (Frechet) p-box arithmetic bounds every dependence, and tightly
+
+The theorems are about the functions the model driver executes (`Pun.PBox.frechetOp`, which the
+public `add/sub/mul/div(…, 'f')` route to), for lists of ANY length `n`, ANY selection of one value
+per step and ANY permutation coupling `σ`.
+
+"The k-th smallest outcome lies inside the k-th step" is stated by counting: at most `i` outcomes
+lie strictly below `left[i]` and at most `n-1-i` strictly above `right[i]`.
+
+Proved here: validity of both bounds (sum: any operands; product: non-negative operands — negative
+operands are routed through negation, which conjugates this case, see `neg` in the model and the
+correspondence check), tightness of the left bound (the extremal anti-diagonal coupling attains it),
+the two `sort` calls of `frechet_op` are identities.  Not proved (kept as tie + oracle only): the
+straddling product (naive ∩ Balch), right-bound tightness (dual argument), general couplings that
+are not permutations (Birkhoff mixture argument, cited).
+-/
+set_option linter.unusedSimpArgs false
+set_option linter.unusedVariables false
 namespace Pun.PBox
-theorem placeholder_c02 : True := trivial
+open Pun Finset
+
+/-- well-formed operand: `n` steps, both bounds sorted -/
+structure WFS (n : Nat) (p : PB) : Prop where
+  llen : p.left.length = n
+  rlen : p.right.length = n
+  lsorted : p.left.Pairwise (· ≤ ·)
+  rsorted : p.right.Pairwise (· ≤ ·)
+
+/-- selection of one value per step -/
+def Sel (n : Nat) (p : PB) (h : WFS n p) (z : Fin n → Rat) : Prop :=
+  ∀ m : Fin n, p.left[m.val]'(by have := h.llen; omega) ≤ z m ∧ z m ≤ p.right[m.val]'(by have := h.rlen; omega)
+
+/-- **C02 validity, sum.** `X + Y` under Frechet: for every selection from each operand and every
+coupling, the outcomes `x m + y (σ m)` have at most `i` values below `left[i]` and at most `n-1-i`
+above `right[i]`. -/
+theorem frechet_add_valid (n : Nat) (X Y : PB) (hX : WFS n X) (hY : WFS n Y)
+    (x y : Fin n → Rat) (hx : Sel n X hX x) (hy : Sel n Y hY y) (σ : Equiv.Perm (Fin n)) (i : Fin n)
+    (l r : Rat) (hl : (frechetOp (· + ·) X Y).1[i.val]? = some l)
+    (hr : (frechetOp (· + ·) X Y).2[i.val]? = some r) :
+    (univ.filter (fun m : Fin n => x m + y (σ m) < l)).card ≤ i.val ∧
+    (univ.filter (fun m : Fin n => r < x m + y (σ m))).card ≤ n - 1 - i.val := by
+  rw [frechetOp_eq_raw (· + ·) add_mono2 X Y (by rw [hX.llen, hY.llen]) (by rw [hX.rlen, hY.rlen])
+    hY.lsorted hX.rsorted] at hl hr
+  exact ⟨frechetLeft_valid (· + ·) add_mono2 X.left Y.left n hX.llen hY.llen hX.lsorted hY.lsorted x y
+      (fun m => (hx m).1) (fun m => (hy m).1) σ i l hl,
+    frechetRight_valid (· + ·) add_mono2 X.right Y.right n hX.rlen hY.rlen hX.rsorted hY.rsorted x y
+      (fun m => (hx m).2) (fun m => (hy m).2) σ i r hr⟩
+
+/-- **C02 tightness, sum (left bound).** There is a coupling of the left-bounding selections under
+which the `i`-th smallest outcome is exactly `left[i]`. -/
+theorem frechet_add_tight_left (n : Nat) (X Y : PB) (hX : WFS n X) (hY : WFS n Y) (i : Fin n)
+    (l : Rat) (hl : (frechetOp (· + ·) X Y).1[i.val]? = some l) :
+    ∃ σ : Equiv.Perm (Fin n),
+      (univ.filter (fun m : Fin n =>
+        X.left[m.val]'(by have := hX.llen; omega) + Y.left[(σ m).val]'(by have := hY.llen; omega) < l)).card ≤ i.val ∧
+      i.val + 1 ≤ (univ.filter (fun m : Fin n =>
+        X.left[m.val]'(by have := hX.llen; omega) + Y.left[(σ m).val]'(by have := hY.llen; omega) ≤ l)).card := by
+  rw [frechetOp_eq_raw (· + ·) add_mono2 X Y (by rw [hX.llen, hY.llen]) (by rw [hX.rlen, hY.rlen])
+    hY.lsorted hX.rsorted] at hl
+  exact frechetLeft_tight (· + ·) add_mono2 X.left Y.left n hX.llen hY.llen hX.lsorted hY.lsorted i l hl
+
+/-- non-negative operand -/
+def NonNeg (p : PB) : Prop := (∀ v ∈ p.left, 0 ≤ v) ∧ (∀ v ∈ p.right, 0 ≤ v)
+
+/-- on non-negative operands `frechet_op(…, mul)` is the rule for the clamped product -/
+theorem frechetOp_mul_eq (X Y : PB) (hX : NonNeg X) (hY : NonNeg Y) :
+    frechetOp (· * ·) X Y = frechetOp mulPos X Y := by
+  unfold frechetOp
+  rw [frechetLeftRaw_mul_eq X.left Y.left hX.1 hY.1, frechetRightRaw_mul_eq X.right Y.right hX.2 hY.2]
+
+/-- **C02 validity, product of non-negative operands.** -/
+theorem frechet_mul_pos_valid (n : Nat) (X Y : PB) (hX : WFS n X) (hY : WFS n Y)
+    (pX : NonNeg X) (pY : NonNeg Y)
+    (x y : Fin n → Rat) (hx : Sel n X hX x) (hy : Sel n Y hY y) (σ : Equiv.Perm (Fin n)) (i : Fin n)
+    (l r : Rat) (hl : (frechetOp (· * ·) X Y).1[i.val]? = some l)
+    (hr : (frechetOp (· * ·) X Y).2[i.val]? = some r) :
+    (univ.filter (fun m : Fin n => x m * y (σ m) < l)).card ≤ i.val ∧
+    (univ.filter (fun m : Fin n => r < x m * y (σ m))).card ≤ n - 1 - i.val := by
+  rw [frechetOp_mul_eq X Y pX pY,
+    frechetOp_eq_raw mulPos mulPos_mono2 X Y (by rw [hX.llen, hY.llen]) (by rw [hX.rlen, hY.rlen])
+    hY.lsorted hX.rsorted] at hl hr
+  have hxpos : ∀ m, 0 ≤ x m := fun m =>
+    le_trans (pX.1 _ (List.getElem_mem _)) (hx m).1
+  have hypos : ∀ m, 0 ≤ y m := fun m =>
+    le_trans (pY.1 _ (List.getElem_mem _)) (hy m).1
+  have e : ∀ m, x m * y (σ m) = mulPos (x m) (y (σ m)) := fun m =>
+    (mulPos_eq _ _ (hxpos m) (hypos _)).symm
+  simp only [e]
+  exact ⟨frechetLeft_valid mulPos mulPos_mono2 X.left Y.left n hX.llen hY.llen hX.lsorted hY.lsorted x y
+      (fun m => (hx m).1) (fun m => (hy m).1) σ i l hl,
+    frechetRight_valid mulPos mulPos_mono2 X.right Y.right n hX.rlen hY.rlen hX.rsorted hY.rsorted x y
+      (fun m => (hx m).2) (fun m => (hy m).2) σ i r hr⟩
+
+/-- **C02 tightness, product of non-negative operands (left bound).** -/
+theorem frechet_mul_pos_tight_left (n : Nat) (X Y : PB) (hX : WFS n X) (hY : WFS n Y)
+    (pX : NonNeg X) (pY : NonNeg Y) (i : Fin n)
+    (l : Rat) (hl : (frechetOp (· * ·) X Y).1[i.val]? = some l) :
+    ∃ σ : Equiv.Perm (Fin n),
+      (univ.filter (fun m : Fin n =>
+        X.left[m.val]'(by have := hX.llen; omega) * Y.left[(σ m).val]'(by have := hY.llen; omega) < l)).card ≤ i.val ∧
+      i.val + 1 ≤ (univ.filter (fun m : Fin n =>
+        X.left[m.val]'(by have := hX.llen; omega) * Y.left[(σ m).val]'(by have := hY.llen; omega) ≤ l)).card := by
+  rw [frechetOp_mul_eq X Y pX pY,
+    frechetOp_eq_raw mulPos mulPos_mono2 X Y (by rw [hX.llen, hY.llen]) (by rw [hX.rlen, hY.rlen])
+    hY.lsorted hX.rsorted] at hl
+  have key := frechetLeft_tight mulPos mulPos_mono2 X.left Y.left n hX.llen hY.llen hX.lsorted hY.lsorted i l hl
+  obtain ⟨σ, h1, h2⟩ := key
+  refine ⟨σ, ?_, ?_⟩
+  · have e : ∀ m : Fin n, X.left[m.val]'(by have := hX.llen; omega) * Y.left[(σ m).val]'(by have := hY.llen; omega) =
+        mulPos (X.left[m.val]'(by have := hX.llen; omega)) (Y.left[(σ m).val]'(by have := hY.llen; omega)) := fun m =>
+      (mulPos_eq _ _ (pX.1 _ (List.getElem_mem _)) (pY.1 _ (List.getElem_mem _))).symm
+    simp only [e]; exact h1
+  · have e : ∀ m : Fin n, X.left[m.val]'(by have := hX.llen; omega) * Y.left[(σ m).val]'(by have := hY.llen; omega) =
+        mulPos (X.left[m.val]'(by have := hX.llen; omega)) (Y.left[(σ m).val]'(by have := hY.llen; omega)) := fun m =>
+      (mulPos_eq _ _ (pX.1 _ (List.getElem_mem _)) (pY.1 _ (List.getElem_mem _))).symm
+    simp only [e]; exact h2
+
+/-- the final `sort` calls of `frechet_op` are identities for the sum -/
+theorem frechet_add_sorted (n : Nat) (X Y : PB) (hX : WFS n X) (hY : WFS n Y) :
+    frechetOp (· + ·) X Y = (frechetLeftRaw (· + ·) X.left Y.left, frechetRightRaw (· + ·) X.right Y.right) :=
+  frechetOp_eq_raw (· + ·) add_mono2 X Y (by rw [hX.llen, hY.llen]) (by rw [hX.rlen, hY.rlen])
+    hY.lsorted hX.rsorted
+
+/-! non-vacuity: a concrete pair of 3-step boxes meets the hypotheses, and the rule computes -/
+example : WFS 3 ⟨[1, 2, 3], [2, 3, 4]⟩ := ⟨rfl, rfl, by decide, by decide⟩
+example : frechetLeftRaw (· + ·) [1, 2, 3] [0, 1, 5] = [1, 2, 6] := by decide +kernel
+example : frechetRightRaw (· + ·) [2, 3, 4] [1, 2, 6] = [5, 6, 10] := by decide +kernel
+example : NonNeg ⟨[1, 2, 3], [2, 3, 4]⟩ := by constructor <;> decide
+
 end Pun.PBox
